@@ -11,7 +11,7 @@ from dataclasses import dataclass
 from typing import Any, Dict, List, Optional, Sequence, Set, Tuple
 
 from ..collect import Path, callee_is, run_paths
-from ..common import defs_of, calls_in, construct, where
+from ..common import nested_fn, passed_as_argument, defs_of, calls_in, construct, where
 from ..flow import NONE, Value, contains, show, subterms
 from ..fold import Folder, NotConst
 from ..loader import AnalysisError, ClassInfo, FuncInfo, Program, walk_shallow
@@ -141,7 +141,7 @@ def run(p: Program, rep: Report, tier: str) -> None:
     sc = p.module("baize.asgi.shortcut").functions.get("websocket_session")
     if sc is None:
         raise AnalysisError("websocket_session vanished")
-    inner = sc.nested.get("asgi")
+    inner = nested_fn(sc, "asgi")
     rep.analysed(sc.fq)
     okv = False
     for c in calls_in(inner) if inner else []:
@@ -393,7 +393,7 @@ def run(p: Program, rep: Report, tier: str) -> None:
         else:
             rep.violation("R11.4", construct(f"{WS}:WEBSOCKET_DENIAL_RESPONSE_MAPPING", text=str(sorted(mapping.items()))), f"{p.module(WS).relpath}:{p.module(WS).constants['WEBSOCKET_DENIAL_RESPONSE_MAPPING'].lineno}",
                           "the denial-response event mapping is not {http.response.start/body -> websocket.http.response.start/body}")
-    ws_send = call.nested.get("ws_send")
+    ws_send = nested_fn(call, "ws_send", passed_as_argument(call))
     if ws_send is not None:
         rep.analysed(ws_send.fq)
         paths, col, it = run_paths(p, ws_send, None)
@@ -421,7 +421,7 @@ def run(p: Program, rep: Report, tier: str) -> None:
                     a0 = c.args[0]
                     fresh = isinstance(a0, (ast.Dict, ast.DictComp)) or (isinstance(a0, ast.Call) and isinstance(a0.func, ast.Name) and a0.func.id == "dict")
                     if isinstance(a0, ast.Name):
-                        defs = [n for n in ast.walk(f_.node) if isinstance(n, (ast.Assign, ast.AnnAssign)) and any(isinstance(t, ast.Name) and t.id == a0.id for t in (n.targets if isinstance(n, ast.Assign) else [n.target]))]
+                        defs = [n for n in ast.walk(f_.node) if isinstance(n, (ast.Assign, ast.AnnAssign)) and any(isinstance(t, ast.Name) and t.id == a0.id for t in (n.targets if isinstance(n, ast.Assign) else [n.target])) and n.value is not None]
                         fresh = bool(defs) and all(isinstance(d.value, (ast.Dict, ast.DictComp)) or (isinstance(d.value, ast.Call) and isinstance(d.value.func, ast.Name) and d.value.func.id == "dict") for d in defs)
                     if fresh:
                         n_fresh += 1
